@@ -1027,7 +1027,9 @@ func (s *c02seedSet) loadGenerated() {
 	gen(dPost, "post-2", func() []byte {
 		return (&post.Info{ItalicAngle: -12.5, UnderlinePosition: -100, UnderlineThickness: 50, Names: []string{".notdef", "A", "B", "custom.one", "custom.two", "A.alt"}}).Encode()
 	})
-	gen(dPost, "post-3", func() []byte { return (&post.Info{UnderlinePosition: -75, UnderlineThickness: 20, IsFixedPitch: true}).Encode() })
+	gen(dPost, "post-3", func() []byte {
+		return (&post.Info{UnderlinePosition: -75, UnderlineThickness: 20, IsFixedPitch: true}).Encode()
+	})
 	gen(dPost, "post-1(hand)", func() []byte {
 		w := &bw{}
 		w.u32(0x00010000, 0).u16(0xFF9C, 50).u32(0, 0, 0, 0, 0)
